@@ -405,6 +405,41 @@ def run(index, rep, tier):
         rep.floor("R19.14", "keyed row stores in loops", 3, na)
         rep.floor("R19.14", "row stores in methods that take another matrix", 4, nb)
 
+    # ---- R19.15 a row is present when its taxon is a key; a miss skips one taxon only
+    with rep.section("R19.15"):
+        rep.rule("R19.15", "(a) a row is present when its taxon is a key of the row map: CharacterMatrix methods decide presence with `in` / `not in` (or a lookup compared with None), never by the truthiness of `_taxon_sequence_map.get(taxon)` - an empty sequence is a row, and it is falsy; (b) a miss skips one taxon only: in discard_sequences the handler that forgives a missing row encloses the deletion of ONE taxon - a try around the whole loop (or around remove_sequences, which stops at the first miss) leaves every taxon listed after the first missing one in place")
+        na = nb_ = 0
+        for fi in index.functions_in_module(MOD):
+            if fi.cls is None or not index.is_subclass(fi.cls, CM):
+                continue
+            g = None
+            gets = {}
+            for st in walk_no_nested(fi.node):
+                if isinstance(st, ast.Assign) and len(st.targets) == 1 and isinstance(st.targets[0], ast.Name) and isinstance(st.value, ast.Call) and call_name(st.value) == "get" and "_taxon_sequence_map" in norm(st.value.func.value):
+                    gets[st.targets[0].id] = st
+            g = cfg_of(fi)
+            for t in g.nodes:
+                if t.kind != "test":
+                    continue
+                e = t.ast
+                direct = isinstance(e, ast.Call) and call_name(e) == "get" and isinstance(e.func, ast.Attribute) and "_taxon_sequence_map" in norm(e.func.value)
+                via = isinstance(e, ast.Name) and e.id in gets
+                if direct or via:
+                    na += 1
+                    rep.check(False, "R19.15", fi.qualname, "row presence decided by truthiness of `%s`" % norm(e)[:50], fn_where(fi, t.stmt), "",
+                              "%s decides whether a taxon has a row by the truthiness of `%s`: an EMPTY sequence is a row too (filled in by fill_taxa, or left by a read), and it is falsy - add_sequences then overwrites it from the other matrix although its documentation adds rows for missing taxa only" % (fi.qualname, norm(e)[:60]))
+                elif isinstance(e, ast.Compare) and len(e.ops) == 1 and isinstance(e.ops[0], (ast.In, ast.NotIn)) and "_taxon_sequence_map" in norm(e.comparators[0]):
+                    na += 1
+            if fi.name == "discard_sequences":
+                tries = [x for x in walk_no_nested(fi.node) if isinstance(x, ast.Try) and any(h.type is None or "KeyError" in norm(h.type) or "Exception" in norm(h.type) for h in x.handlers)]
+                for tr in tries:
+                    nb_ += 1
+                    bulk = [y for b in tr.body for y in ast.walk(b) if isinstance(y, (ast.For, ast.While)) or (isinstance(y, ast.Call) and call_name(y) in ("remove_sequences", "keep_sequences"))]
+                    rep.check(not bulk, "R19.15", fi.qualname, "one forgiving handler around the whole removal", fn_where(fi, tr), "discard_sequences forgives a miss per taxon",
+                              "CharacterMatrix.discard_sequences wraps the whole removal (`%s`) in one try/except: the first listed taxon that has no row raises inside it and ends the removal, so the taxa listed after it keep their rows - discard_sequences([b, a]) on rows a, c, d leaves row a in place" % ((norm(bulk[0])[:50] if not isinstance(bulk[0], ast.stmt) else norm_stmt(bulk[0])[:50]) if bulk else ""))
+        rep.floor("R19.15", "presence tests on the row map", 5, na)
+        rep.floor("R19.15", "forgiving handlers in discard_sequences", 1, nb_)
+
 
 def _r19_3(rep, fi, seeds):
     t = tainted_names(fi, seeds)
